@@ -114,10 +114,11 @@ device_cb(void *arg)
 		}
 	}
 	if (rv != 0) {
-		if (p->state == NNI_DEVICE_STATE_SEND) {
-			nni_msg_free(nni_aio_get_msg(&p->aio));
-			nni_aio_set_msg(&p->aio, NULL);
-		}
+		// Whatever message is attached is ours to free: one we failed
+		// to send, or one that was received just before the aio was
+		// aborted (the abort replaces the result of a completed receive).
+		nni_msg_free(nni_aio_get_msg(&p->aio));
+		nni_aio_set_msg(&p->aio, NULL);
 		p->state = NNI_DEVICE_STATE_FINI;
 		d->running--;
 		if (d->rv == 0) {
